@@ -185,14 +185,14 @@ pub fn explore(ctx: &Ctx) {
         }
         v
     } else {
-        let mut v = dates_of_years(&[2024]);
+        let mut v: Vec<NaiveDate> = dates_of_years(&[2024]).into_iter().step_by(3).collect();
         v.extend(d_seam(1600, 1600));
         v.extend(d_seam(2399, 2399));
         v.extend(d_seam(2023, 2023));
         v
     };
     // dates used where a nearest-good-day search cannot succeed (|lat| >= 85): ~33 ms per call
-    let dates_polar_ngd: Vec<NaiveDate> = if quick { vec![ymd(2024, 3, 20), ymd(2024, 6, 20), ymd(2024, 12, 21)] } else { dates.iter().cloned().step_by(7).collect() };
+    let dates_polar_ngd: Vec<NaiveDate> = if quick { vec![ymd(2024, 3, 20), ymd(2024, 6, 20), ymd(2024, 12, 21)] } else { dates.iter().cloned().step_by(10).collect() };
     let pols = policies27();
     let roundings = crate::c05::ROUNDINGS;
     let dev_roundings: Vec<RoundSeconds> = if quick { vec![RoundSeconds::None, RoundSeconds::AggressiveRounding] } else { roundings.to_vec() };
